@@ -815,6 +815,100 @@ def rule_r16(ctx):
         raise AnalysisBroken("only %d walks over id maps with a local cursor found" % n)
 
 
+# ---------------------------------------------------------------------------
+# R17: every wrap of a msgq cursor uses the extent of the storage; R18: the buffer is served before a blocked writer
+
+def rule_r17(ctx):
+    r = ctx.rule("C18.R17", "T9", "the ring of nni_msgq has one extent: every test that wraps a cursor (mq_get / mq_put compared for equality and "
+                 "then set to 0) compares it with mq_alloc, the size of the storage, as its siblings do -- a cursor wrapped at the "
+                 "capacity (two less) leaves the two sides of the ring walking different rings: slots are skipped, read twice, or "
+                 "read before they were written", floor=5)
+    prog = ctx.prog
+    n = 0
+    for f in prog.fns_in("core/msgqueue.c"):
+        if f.cfg_failed:
+            continue
+        for b in f.blocks.values():
+            if not b.term or len(b.succs) != 2:
+                continue
+            c = f.cond(b.id)
+            if c is None or c.get("k") != "bin" or c.get("op") not in ("==", ">="):
+                continue
+            l, rr = c["lhs"], c["rhs"]
+            if rr.get("k") == "mem" and last_field(rr) in ("nni_msgq.mq_get", "nni_msgq.mq_put"):
+                l, rr = rr, l
+            if l.get("k") != "mem" or last_field(l) not in ("nni_msgq.mq_get", "nni_msgq.mq_put"):
+                continue
+            tgt = b.succs[0]
+            zeroed = tgt is not None and any(t.b == tgt and t.node["lhs"].get("k") == "mem" and last_field(t.node["lhs"]) == last_field(l) and
+                                             const_of(f.expand(t.node["rhs"])) == 0 for t in f.assigns())
+            if not zeroed:
+                continue
+            n += 1
+            if rr.get("k") == "mem" and last_field(rr) == "nni_msgq.mq_alloc":
+                r.ob(f, "%s wrapped at mq_alloc (line %s)" % (last_field(l), f.line_of(b.id, 0)))
+            else:
+                ctx.fail(r, f, "%s wrapped at %s" % (last_field(l), show(rr)), f.line_of(b.id, 0),
+                         "%s wraps %s when it equals %s; every other wrap of the ring uses mq_alloc (the storage holds mq_cap + 2 "
+                         "slots): the cursor returns to slot 0 early and the two sides of the queue no longer agree on where the "
+                         "messages are" % (f.name, last_field(l), show(rr)))
+    if n < 5:
+        raise AnalysisBroken("only %d cursor wraps found in msgqueue.c" % n)
+
+
+def rule_r18(ctx):
+    r = ctx.rule("C18.R18", "T1", "what was queued first is read first: where nni_msgq serves a reader directly from a blocked writer (the message "
+                 "of an aio taken from mq_aio_putq is given to an aio of mq_aio_getq) it has established that the buffer is "
+                 "empty (mq_len == 0) -- a writer that blocked because the buffer was full holds the newest message, and serving "
+                 "it first delivers it before everything that is buffered", floor=1)
+    prog = ctx.prog
+    n = 0
+    for f in prog.fns_in("core/msgqueue.c"):
+        if f.cfg_failed:
+            continue
+        wvars = {v for v in f.locals() if any(d is not None and any(m.get("k") == "call" and m.get("fn") == "nni_list_first" and m.get("args") and
+                                                                   last_field(f.expand(m["args"][0])) == "nni_msgq.mq_aio_putq" for m in walk(d))
+                                              for _, d in G.var_defs(f, v))}
+        rvars = {v for v in f.locals() if any(d is not None and any(m.get("k") == "call" and m.get("fn") == "nni_list_first" and m.get("args") and
+                                                                   last_field(f.expand(m["args"][0])) == "nni_msgq.mq_aio_getq" for m in walk(d))
+                                              for _, d in G.var_defs(f, v))}
+        if not wvars or not rvars:
+            continue
+        mvars = {v for v in f.locals() if any(d is not None and any(
+            m.get("k") == "call" and m.get("fn") == "nni_aio_get_msg" and m.get("args") and f.expand(m["args"][0]).get("k") == "var" and
+            f.expand(m["args"][0])["n"] in wvars for m in walk(d)) for _, d in G.var_defs(f, v))}
+        empty = {}
+        for bid, k, atom, val in G.edge_facts(f):
+            if atom.get("k") == "mem" and last_field(atom) == "nni_msgq.mq_len" and not val:
+                empty[bid] = k
+            elif atom.get("k") == "bin" and atom.get("op") in ("==", "!=", ">") and atom["lhs"].get("k") == "mem" and \
+                    last_field(atom["lhs"]) == "nni_msgq.mq_len" and const_of(atom["rhs"]) == 0:
+                if (atom["op"] == "==" and val) or (atom["op"] in ("!=", ">") and not val):
+                    empty[bid] = k
+        for c in f.calls(("nni_aio_finish_msg", "nni_aio_set_msg")):
+            a = [f.expand(x) if x is not None else None for x in c.node["args"]]
+            if len(a) > 1 and a[0] is not None and a[0].get("k") == "var" and a[0]["n"] in rvars and a[1] is not None and \
+                    a[1].get("k") == "var" and a[1]["n"] in mvars:
+                # two locals of the same name in sibling scopes: what reaches this call must be the writer's message
+                rd = G.reaching_defs(f, a[1]["n"], (c.b, c.i))
+                if not rd or not all(d is not None and any(m.get("k") == "call" and m.get("fn") == "nni_aio_get_msg" for m in walk(d)) for _, d in rd):
+                    continue
+                if not any(m.get("k") == "idx" and (last_field(f.expand(m["b"])) or "") == "nni_msgq.mq_msgs" and "mq_get" in show(m["i"])
+                           for t in f.sites() for m in walk(t.node)):
+                    continue        # a function that never reads the ring has no choice to make (run_putq relies on the
+                    #                 invariant that a blocked reader means an empty buffer)
+                n += 1
+                if empty and G.dominated(f, (c.b, c.i), empty):
+                    r.ob(f, "reader served from a blocked writer (line %s) only when the buffer is empty" % c.line)
+                else:
+                    ctx.fail(r, f, "reader served from a blocked writer ahead of the buffer", c.line,
+                             "%s gives the message of a writer waiting on mq_aio_putq to a reader (line %s) on a path that has not "
+                             "established mq_len == 0: the writer's message is newer than everything in the buffer and is "
+                             "delivered first" % (f.name, c.line))
+    if n < 1:
+        raise AnalysisBroken("no direct writer-to-reader hand-over found in msgqueue.c")
+
+
 def run(ctx):
     ctx.guard(rule_r1)
     ctx.guard(rule_r2)
@@ -829,6 +923,8 @@ def run(ctx):
     ctx.guard(rule_r14)
     ctx.guard(rule_r15)
     ctx.guard(rule_r16)
+    ctx.guard(rule_r17)
+    ctx.guard(rule_r18)
     from . import c08
     ctx.guard(c08.rule_r6)        # the pair sockets' receive buffer stays first-in first-out
     for rr in ctx.rules:
